@@ -20,7 +20,7 @@ fn announce_view(b: &[u8], steps_plus: u128) -> (String, String) {
     let acc = if (0x17..=0x31).contains(&b[49]) || (0x80..=0xfe).contains(&b[49]) { b[49] } else { 0 };
     let d = format!(
         "{} {} {} {} {} {} {}",
-        be(b, 61, 2) + steps_plus,
+        (be(b, 61, 2) + steps_plus).min(65535),
         hex(&b[53..61]),
         b[48],
         acc,
